@@ -121,7 +121,12 @@ func init() {
 		"os.Rename":                               fsWrite,
 		"sort.Slice":                              sortSlice,
 	}
-	externalModels = map[string]intrinsic{}
+	externalModels = map[string]intrinsic{
+		"net/http.Post":          httpRespErr,
+		"net/http.Get":           httpRespErr,
+		"(*net/http.Client).Do":  httpRespErr,
+		"(*net/http.Client).Get": httpRespErr,
+	}
 	invokeModels = map[string]intrinsic{
 		"(error).Error": freshString,
 	}
@@ -218,10 +223,7 @@ func (ex *Exec) lockOrderOK(held, acq string) bool {
 }
 
 func float64bits(ex *Exec, st *State, fr *Frame, callee *ssa.Function, args []Val, c *ssa.CallCommon, pos token.Pos) Val {
-	f := sc(args[0]).T
-	b := ex.vc.Fresh("f64bits", BV(64))
-	ex.assume(st, eq(app("(_ to_fp 11 53)", b), f))
-	return Sc{b, BV(64)}
+	return Sc{ex.f64bits(sc(args[0]).T), BV(64)}
 }
 
 func float64frombits(ex *Exec, st *State, fr *Frame, callee *ssa.Function, args []Val, c *ssa.CallCommon, pos token.Pos) Val {
@@ -402,4 +404,27 @@ func fsOpen(ex *Exec, st *State, fr *Frame, callee *ssa.Function, args []Val, c 
 	}
 	ex.vc.Trust("file-system calls (OpenFile): results unconstrained, no effect on verified memory")
 	return ex.freshResults(st, c.Signature().Results(), "fs")
+}
+
+// httpRespErr: the documented contract of http.Post/Get/Do: the response is
+// non-nil exactly when the error is nil.
+func httpRespErr(ex *Exec, st *State, fr *Frame, callee *ssa.Function, args []Val, c *ssa.CallCommon, pos token.Pos) Val {
+	ex.blockingCall(st, fr, callee.Name(), pos)
+	resp := ex.vc.Fresh("resp", SRef)
+	err := ex.vc.Fresh("err", SRef)
+	ex.assume(st, eq(eq(err, z64()), not(eq(resp, z64()))))
+	ex.assume(st, or(eq(resp, z64()), sel(st.alloc, resp)))
+	ex.vc.Trust("net/http client calls return a non-nil response exactly when the error is nil (documented contract)")
+	return &Agg{F: []Val{Sc{resp, SRef}, Sc{err, SRef}}}
+}
+
+// f64bits: math.Float64bits as an uninterpreted function whose result converts
+// back to its argument (so the same float always yields the same bits).
+func (ex *Exec) f64bits(f string) string {
+	ex.vc.DeclareFun("F64bits", []Sort{SFP}, BV(64))
+	b := app("F64bits", f)
+	if ex.vc.noBind == 0 {
+		ex.vc.Assume(eq(app("(_ to_fp 11 53)", b), f))
+	}
+	return b
 }
